@@ -1037,7 +1037,9 @@ func ruleFlushNoWork(r *Report) {
 				continue
 			}
 			n++
-			ok, path := guarded(fn, ret, mkEdgeSet(ev), nil)
+			// every way to this return that does not pass the swap passes the "pool is empty" edge
+			reach, path := Search{Fn: fn, Target: isInstr(ret), Avoid: anyOf(swaps), AvoidEdges: expandFlagEdges(fn, mkEdgeSet(ev), nil)}.Run()
+			ok := !reach
 			if ok && len(ev) > 0 {
 				r.Ok(rule, c.typ+".Flush/no-work-exit", ret.Pos(), "the early exit is taken only when the pool is empty")
 			} else {
